@@ -48,6 +48,7 @@ type pathState struct {
 	unknownBranch  int
 	obligations    int
 	nasserted      int
+	failedAssert   bool
 }
 
 type Config struct {
@@ -297,6 +298,9 @@ func (i *interpreter) tape() []int64 {
 var numRe = regexp.MustCompile(`-?\b\d+\b|0x[0-9a-f]+`)
 
 func (i *interpreter) addFinding(kind, label string, withModel bool) {
+	if kind == "ASSERT" {
+		i.ps.failedAssert = true
+	}
 	if withModel {
 		i.ensureModel()
 	}
@@ -732,6 +736,9 @@ func (sh *shared) runPath(sol *solver, pre []decision, pathNo int) (alts [][]dec
 		if want {
 			safely(func() {
 				i.ensureModel()
+				if ps.failedAssert {
+					return // its tape is replayed as a finding already
+				}
 				s := PathSample{Tape: i.tape(), Trace: append([]string{}, ps.trace...), Outcome: outcome}
 				sh.mu.Lock()
 				sh.res.Samples = append(sh.res.Samples, s)
